@@ -163,6 +163,10 @@ impl Monitor for C08 {
             }
             let class = parts.join(",");
             self.rep.count(&format!("restart points: {}", class));
+            if ev.block_txs.len() > 64 {
+                self.rep.count("restart points after a block of more than 64 transactions");
+                self.rep.max("max:transactions in a block before a restart point", ev.block_txs.len() as u64);
+            }
             if w.prev_tip.as_ref().map(|p| p.header().dosc_speed < hdr.dosc_speed).unwrap_or(false) {
                 self.rep.count("restart points right after a mint raised the recorded DOSC speed");
             }
@@ -196,11 +200,12 @@ pub fn run(p: &Params) -> Report {
     let mine = p.share(total);
     let mut rng = Rng::new(p.shard_seed() ^ 0xC08);
     let mut mon = C08 { rep: Report::new("C08"), case_seed: 0, mirrors: vec![], max_steps: 5 };
-    mon.rep.rule = "cases = restart points: after every sealed block of random histories the state is serialized with to_block + stdcode, the stake set rebuilt from its iterator and every node of the content-addressed store copied into a fresh store; from_block on those gives a second lineage that is fed the identical next 5 blocks (all batches, valid and hostile, and proposer actions). After every step both lineages must agree on accept/reject and on the whole header. Fee pools range up to 2^126 (at, just below and above the largest coin value). Some histories contain ERG mints that do enough work to raise the recorded DOSC speed (counted). Restart points are classified (with/without action, pending tips, empty block, epoch boundary, TIP activation on testnet 499->500 and fabricated mainnet activation heights). Non-trivial = every restart point; distinct by (header hash, class)".into();
+    mon.rep.rule = "cases = restart points: after every sealed block of random histories the state is serialized with to_block + stdcode, the stake set rebuilt from its iterator and every node of the content-addressed store copied into a fresh store; from_block on those gives a second lineage that is fed the identical next 5 blocks (all batches, valid and hostile, and proposer actions). After every step both lineages must agree on accept/reject and on the whole header. Fee pools range up to 2^126 (at, just below and above the largest coin value). Some histories contain blocks of 65-200 transactions (counted). Some histories contain ERG mints that do enough work to raise the recorded DOSC speed (counted). Restart points are classified (with/without action, pending tips, empty block, epoch boundary, TIP activation on testnet 499->500 and fabricated mainnet activation heights). Non-trivial = every restart point; distinct by (header hash, class)".into();
     if p.only_case.is_none() {
         mon.rep.require("blocks mirrored on a restarted lineage", p.n(3000, 60000));
         mon.rep.require("restart points followed to the end of their continuation", p.n(300, 6000));
         mon.rep.require("restart points right after a mint raised the recorded DOSC speed", p.n(5, 100));
+        mon.rep.require("restart points after a block of more than 64 transactions", p.n(20, 400));
     }
     for case in 0..mine {
         let case_seed = rng.next();
@@ -232,6 +237,10 @@ pub fn run(p: &Params) -> Report {
             // some histories contain a mint that raises the recorded DOSC speed before the restart points
             w.profile.fast_mint_permille = 500;
             w.profile.doscmint = 25;
+        }
+        if matches!(case % 8, 3 | 5 | 6) {
+            // some histories contain blocks of 65-200 transactions (the restored transaction set is rebuilt from the block)
+            w.profile.big_block_permille = 70;
         }
         let blocks = 7 + (case % 8) as usize;
         run_history(&mut w, blocks, &mut [&mut mon]);
